@@ -375,6 +375,14 @@ func child(id, level string, body func(r *Run)) {
 	os.Exit(0)
 }
 
+// FinishNow flushes what was recorded as a complete result and ends the child
+// (used by watchdogs inside a monitor after recording a hang: the stuck
+// goroutine cannot be cancelled, so the process ends with its verdict).
+func (r *Run) FinishNow() {
+	r.flush(true)
+	os.Exit(0)
+}
+
 func (r *Run) flush(complete bool) {
 	r.mu.Lock()
 	r.res.Distinct = int64(len(r.distinct)) + r.distinctEnum
